@@ -236,9 +236,19 @@ def _run_case(ctx, case, rng):
     elif kind == "invalid":
         args, kwargs = case["args"], case["kwargs"]
         via_cwna = case.get("via") == "copy_with_new_atts"
+        if case.get("first"):
+            # an equal-looking but acceptable specification is used first (0 == False, 31 == 31.0):
+            # what is decided about one must not be remembered for the other
+            try:
+                fmtstr("ab", *case["first"][0], **dict(case["first"][1]))
+            except ValueError:
+                pass
         for base in ("ab", obs.build([["ab", {"fg": 31}]])):
             try:
-                if via_cwna:
+                if case.get("via", "").startswith("fmtfunc:"):
+                    import curtsies.fmtfuncs as _ff
+                    r = getattr(_ff, case["via"].split(":")[1])(base, **dict(kwargs))
+                elif via_cwna:
                     r = (fmtstr(base) if isinstance(base, str) else base).copy_with_new_atts(**dict(kwargs))
                 else:
                     r = fmtstr(base, *args, **dict(kwargs))
@@ -336,6 +346,18 @@ def run(ctx):
             if not a and "style" not in kw:
                 run_case(ctx, {"kind": "invalid", "args": a, "kwargs": kw, "via": "copy_with_new_atts"})
                 ctx.count("invalid_catalogue_via_copy_with_new_atts")
+        # a helper names its attribute; naming the same attribute again with another value is contradictory
+        for fn, kw in (("red", {"fg": "blue"}), ("on_red", {"bg": 44}), ("bold", {"bold": False})):
+            run_case(ctx, {"kind": "invalid", "args": [], "kwargs": kw, "via": "fmtfunc:" + fn})
+            ctx.count("invalid_catalogue_via_fmtfuncs")
+        for first, (a, kw) in (([["bold"], {"bold": 0}], [["bold"], {"bold": False}]),
+                               ([[], {"fg": 31}], [[], {"fg": 31.5}]),
+                               ([["red"], {}], [["red"], {"fg": "blue"}]),
+                               ([[], {"bold": True, "fg": 31}], [[], {"bold": True, "fg": 41}])):
+            run_case(ctx, {"kind": "invalid", "args": a, "kwargs": kw, "first": first})
+        # and the whole catalogue once more, now that every valid spelling has been through the parser
+        for a, kw in INVALID:
+            run_case(ctx, {"kind": "invalid", "args": a, "kwargs": kw, "pass": 2})
         for kw, meaning in ([{"fg": "red"}, {"fg": "red"}], [{"bg": "blue", "bold": True}, {"bg": "blue", "bold": True}],
                             [{"fg": 31.0}, {"fg": "red"}], [{"bold": 0}, {"bold": False}]):
             run_case(ctx, {"kind": "lenient", "args": [], "kwargs": kw, "meaning": meaning, "via": "copy_with_new_atts"})
